@@ -73,6 +73,26 @@ def body_for(ctx):
             ec.report(ctx, inp, cfg, out, check_off=False, enumerated=False)
             return
         ctx.label('outcome.balanced')
+        # Second call in the same process with the same performance-model object and the same loaded
+        # configuration but another fuel: the inventory must balance against *that* fuel (nothing may be
+        # remembered from the previous call).
+        try:
+            upd = {'EI_H2O': inp.fuel.EI_H2O * 1.07 + 3.0, 'EI_CO2': inp.fuel.EI_CO2 * 0.93 - 5.0}
+            fuel2 = inp.fuel.model_copy(update=upd)
+        except core.PASS_THROUGH:
+            raise
+        except Exception:  # noqa: BLE001  (harness cannot derive a second fuel: skip the sub-check)
+            fuel2 = None
+        if fuel2 is not None:
+            inp2 = ec.Inputs(inp.pm, fuel2, inp.traj)
+            out2 = ec.evaluate(inp2, cfg, check_off=False, reload=False)
+            ctx.label('second_call.other_fuel')
+            if out2.kind != 'refused' and out2.failures:
+                f = out2.failures[0]
+                ctx.fail('second_call.' + f.clause, f.kind, f.where, 'same_model_and_config_other_fuel',
+                         'second compute_emissions call with the same performance model and configuration but another fuel: '
+                         + f.detail)
+                return
         if nontrivial:
             tf = inp.tf
             ctx.mark_nontrivial({
